@@ -3,9 +3,11 @@
 From Coq Require Import String Permutation.
 From TT Require Import Lib.Base Lib.Sort Model.Utf8 Model.MimeCt Model.Content Spec.C16 Corr.C16 Proof.Utf8Sweep Proof.C16.
 
-(* The model meets the whole statement on every input of the ten scenario kinds: every text over Unicode scalar
+(* The model meets the whole statement on every input of the eleven scenario kinds: every text over Unicode scalar
    values, every chunk list, every byte string under all its splits, every source content / position / seek offset
-   (any integer) / origin / chunk_size >= 1 / buffer_now, every mutable list and mutation sequence, every pair of contents, every content type of the modelled
+   (any integer) / origin / chunk_size >= 1 / buffer_now / read-size oracle of the stream (any sequence of short
+   reads), every mutable list and mutation sequence, every pair of contents, every history of reads on one content
+   object (any number of readers created, advanced alternately, abandoned, drained), every content type of the modelled
    domain - outside the known finding F16 (full statement: the same without the finding_F16 hypothesis; it is false,
    see C16_refuted_F16). *)
 Theorem C16_holds : forall i : input, wf i = true -> finding_F16 i = false -> spec_okb i (model i) = true.
@@ -99,7 +101,8 @@ Proof. exact json_bytes. Qed.
 Print Assumptions C16_json.
 
 (* ---- _iter_chunks: for every data, offset (any integer), origin in {SEEK_SET, SEEK_END}, chunk_size >= 1, BytesIO or
-   file: the supplied fuel (remaining length + 1) suffices, the chunks are non-empty, each <= chunk_size, and
+   file, and EVERY read-size oracle w_sizes w (a stream whose read(n) returns any 1..n bytes while data remains:
+   unbuffered pipe, socket, raw device): the supplied fuel (remaining length + 1) suffices, the chunks are non-empty, each <= chunk_size, and
    concatenate to the bytes from the start position - clamped as the stream clamps it - to EOF; one read per chunk
    plus the final empty one ---- *)
 Theorem C16_iter_chunks : forall k n off wh w, 1 <= n ->
@@ -117,8 +120,10 @@ Theorem C16_iter_chunks_clamp : forall len off,
 Proof. exact seek_bytesio_clamps. Qed.
 Print Assumptions C16_iter_chunks_clamp.
 
-Theorem C16_read_loop : forall fuel data pos n, 1 <= n -> length data - pos < fuel ->
-  exists cs, read_loop fuel data pos n = Some (cs, Nat.max pos (length data), S (length cs))
+(* the read loop under ANY oracle (sizes : list nat is arbitrary: entries are clamped to 1..n, an exhausted oracle
+   means full reads): it stops at the empty read and at nothing else - a short read is not end of file *)
+Theorem C16_read_loop : forall fuel data pos n sizes, 1 <= n -> length data - pos < fuel ->
+  exists cs, read_loop fuel data pos n sizes = Some (cs, Nat.max pos (length data), S (length cs))
              /\ Forall (fun c => c <> []) cs /\ Forall (fun c => length c <= n) cs
              /\ concat cs = skipn pos data.
 Proof. exact read_loop_spec. Qed.
@@ -148,6 +153,33 @@ Theorem C16_eq : forall ta ca tb cb w,
 Proof. exact eq_iff. Qed.
 Print Assumptions C16_eq.
 
+(* ---- histories of reads on ONE content object: whatever readers were created before, however far each was
+   advanced, in whatever interleaving, abandoned or drained - every COMPLETE read (as_text(), or all a reader
+   collected from its first piece to exhaustion) is the whole-string decode of the joined bytes (an undecodable
+   string: the error), for every decoder that is a fold of a byte automaton ---- *)
+Theorem C16_history : forall C ct chunks oracle ops k t,
+  ct_type ct = sb "text" -> codec_of (declared_charset ct) = Some C ->
+  nth_error (read_history ct chunks oracle ops) k = Some (RRead t) -> t = whole C (concat chunks).
+Proof. exact history_reads. Qed.
+Print Assumptions C16_history.
+
+Theorem C16_history_answers : forall ct chunks oracle ops,
+  length (read_history ct chunks oracle ops) = length ops
+  /\ forall k, nth_error ops k = Some HAsText -> exists t, nth_error (read_history ct chunks oracle ops) k = Some (RRead t).
+Proof. exact history_answers. Qed.
+Print Assumptions C16_history_answers.
+
+(* ... because a reader owns its decoder: a new reader drained gives the whole-string decode; a next() in between
+   does not change what the reader will hold at the end; draining twice changes nothing; an operation on reader j
+   leaves every other reader as it was *)
+Theorem C16_readers_independent : forall C,
+  (forall chunks, ti_result C (ti_finish C (ti_fresh C chunks)) = whole C (concat chunks))
+  /\ (forall it, ti_finish C (ti_step C it) = ti_finish C it)
+  /\ (forall it, ti_finish C (ti_finish C it) = ti_finish C it)
+  /\ (forall (its : list (titer C)) i j x, i <> j -> nth_error (upd j x its) i = nth_error its i).
+Proof. exact readers_independent. Qed.
+Print Assumptions C16_readers_independent.
+
 (* ---- parse (render ct) = ct for wf_ct ---- *)
 Theorem C16_mime_roundtrip : forall ct, wf_ct ct = true ->
   exists ct', make_content_type (render ct) = Ok ct' /\ CtSame ct' ct.
@@ -172,9 +204,10 @@ Print Assumptions C16_snapshot.
 Theorem C16_snapshot_unaffected : forall c w cp w1 cs w',
   copy_content c w = (Ok cp, w1) -> iter_bytes c w = (Ok cs, w') ->
   forall writes : list (loc * list chunk), Forall (fun lv => fst lv < length (w_heap w)) writes ->
-  forall d p r,
+  forall d p r sz,
     let w2 := {| w_data := d; w_pos := p; w_reads := r;
-                 w_heap := fold_left (fun h lv => heap_set (fst lv) (snd lv) h) writes (w_heap w1) |} in
+                 w_heap := fold_left (fun h lv => heap_set (fst lv) (snd lv) h) writes (w_heap w1);
+                 w_sizes := sz |} in
     iter_bytes cp w2 = (Ok cs, w2).
 Proof. exact snapshot_unaffected. Qed.
 Print Assumptions C16_snapshot_unaffected.
@@ -187,16 +220,21 @@ Print Assumptions C16_tables.
 
 (* non-vacuity: an astral + combining + NUL text round-trips; a 3-byte sequence cut in the middle with an empty
    chunk in between decodes, its truncation raises under a split; a read loop over 5 bytes from offset -4 (SEEK_END)
-   in chunks of 2; an unbuffered content sees the later world, the snapshot does not; a copy gathered from a
+   in chunks of 2; the same through a stream that hands out 1, then 1, then full reads; a reader abandoned inside a
+   3-byte sequence, a second reader and as_text() interleaved with it, every complete read is the euro sign; an unbuffered content sees the later world, the snapshot does not; a copy gathered from a
    mutable list keeps its chunks when the list is cleared and refilled; a wf_ct type with two
    parameters round-trips; the F16 witness does not *)
 Example C16_example :
   as_text (text_content [0x1F600; 0x65; 0x301; 0]%N) w0 = (Ok [0x1F600; 0x65; 0x301; 0]%N, w0)
   /\ fst (as_text {| c_type := Gen.Ctc16.UTF8_TEXT; c_src := Stored [[0xE2; 0x82]; []; [0xAC]]%N |} w0) = Ok [0x20AC%N]
   /\ fst (as_text {| c_type := Gen.Ctc16.UTF8_TEXT; c_src := Stored [[0xE2]; [0x82]]%N |} w0) = Raised UnicodeDecodeError
-  /\ fst (run_reader KBytesIO 2 (Some ((-4)%Z, SeekEnd)) (w_init [1; 2; 3; 4; 5]%N 0)) = Ok [[2; 3]; [4; 5]]%N
+  /\ fst (run_reader KBytesIO 2 (Some ((-4)%Z, SeekEnd)) (w_init [1; 2; 3; 4; 5]%N 0 [])) = Ok [[2; 3]; [4; 5]]%N
+  /\ fst (run_reader KBytesIO 2 (Some ((-4)%Z, SeekEnd)) (w_init [1; 2; 3; 4; 5]%N 0 [1; 1])) = Ok [[2]; [3]; [4; 5]]%N
+  /\ read_history Gen.Ctc16.UTF8_TEXT [[0xE2; 0x82]; [0xAC]]%N None
+                  [HNew; HNext 0; HAsText; HNew; HNext 1; HNext 0; HFinish 1; HFinish 0]
+     = [RNew None; RStepped; RRead (Ok [0x20AC%N]); RNew None; RStepped; RStepped; RRead (Ok [0x20AC%N]); RRead (Ok [0x20AC%N])]
   /\ (let c := {| c_type := Gen.Ctc16.UTF8_TEXT; c_src := Live KFile 2 None |} in
-      match copy_content c (w_init [1; 2; 3]%N 0) with
+      match copy_content c (w_init [1; 2; 3]%N 0 []) with
       | (Ok cp, w1) => fst (iter_bytes cp (set_source w1 [9]%N 0)) = Ok [[1; 2]; [3]]%N
                        /\ fst (iter_bytes c (set_source w1 [9]%N 0)) = Ok [[9]]%N
       | _ => False
